@@ -1018,8 +1018,10 @@ def plan(prop, tier, seed, known):
         jobs.append(crash_job("crashscript2off", 2, "script", 1, 0, av, disk=3200, extra=["-loss", "2", "-cont", "1", "-nested", "0", "-unst", "0"]))
         jobs.append(crash_job("crashscript4", 4, "script", 1, 0, av, disk=3200, extra=["-loss", "2" if q else "6", "-cont", "2", "-nested", "1", "-unst", "1"]))
         jobs.append(crash_job("crashscript5", 5, "script", 1, 0, av, disk=3200, extra=["-loss", "1", "-cont", "0", "-nested", "0", "-stride", "3" if q else "1", "-unst", "1"]))
-        jobs += commitwin_jobs(q, ["C07", "C01"]) if False else []
         jobs += commitwin_jobs(q, ["C07", "C01"])
+        # what "stable" waits for: its own position, never the shared field that a refused transaction resets (script 4 and the
+        # commit windows with a refused request exercise the same on the real code)
+        jobs += design_jobs("Flush", ["Flush"], [], [("Flush_shared", "Promise"), ("Flush_late", "Promise")], q)
         jobs.append(seq_job("unstseq", seed, "data,mix", 4 if q else 16, 250, av))
         jobs.append(probe_job(prop, av))
     elif prop == "C03":
